@@ -46,6 +46,7 @@ type Engine struct {
 	inlCache   map[*ssa.Function]int
 	declOf     map[*ssa.Function]*ast.FuncDecl
 	tmForNames *TypeMap
+	requested  map[string]bool
 	gnnCache   map[*ssa.Global]bool
 }
 
@@ -70,8 +71,33 @@ func loadEngine(repo string, patterns []string, extraOverlay map[string][]byte) 
 	for k, v := range extraOverlay {
 		eng.overlay[k] = v
 	}
+	// phase 0: dependencies of the requested packages that carry a contract file become roots as well,
+	// so that callers are verified against the callee's contract and not its body
+	cfg0 := &packages.Config{Mode: packages.NeedName | packages.NeedFiles | packages.NeedImports | packages.NeedDeps, Dir: repo, BuildFlags: []string{"-tags=verif"}, Overlay: eng.overlay}
+	if p0, err := packages.Load(cfg0, patterns...); err == nil {
+		have := map[string]bool{}
+		eng.requested = map[string]bool{}
+		for _, p := range p0 {
+			have[p.PkgPath] = true
+			eng.requested[p.PkgPath] = true
+		}
+		var extra []string
+		packages.Visit(p0, nil, func(p *packages.Package) {
+			if have[p.PkgPath] || !strings.HasPrefix(p.PkgPath, "github.com/VKCOM/statshouse/") {
+				return
+			}
+			if d := pkgDir(p); d != "" {
+				if _, err := os.Stat(filepath.Join(d, contractFileName)); err == nil {
+					extra = append(extra, p.PkgPath)
+					have[p.PkgPath] = true
+				}
+			}
+		})
+		sort.Strings(extra)
+		patterns = append(append([]string{}, patterns...), extra...)
+	}
 	// phase 1: roots only, for parameter names and local scopes
-	cfg1 := &packages.Config{Mode: packages.NeedName | packages.NeedFiles | packages.NeedCompiledGoFiles | packages.NeedImports | packages.NeedTypes | packages.NeedSyntax | packages.NeedTypesInfo | packages.NeedTypesSizes,
+	cfg1 :=&packages.Config{Mode: packages.NeedName | packages.NeedFiles | packages.NeedCompiledGoFiles | packages.NeedImports | packages.NeedTypes | packages.NeedSyntax | packages.NeedTypesInfo | packages.NeedTypesSizes,
 		Dir: repo, BuildFlags: []string{"-tags=verif"}, Overlay: eng.overlay, Fset: token.NewFileSet()}
 	p1, err := packages.Load(cfg1, patterns...)
 	if err != nil {
@@ -1227,12 +1253,26 @@ func rootAlloc(v ssa.Value) *ssa.Alloc {
 func (eng *Engine) instrWrites(ms *modSet, ne *Exec, fn *ssa.Function, ins ssa.Instruction, esc map[*ssa.Alloc]bool, depth int) {
 	switch x := ins.(type) {
 	case *ssa.Store:
-		if a := rootAlloc(x.Addr); a != nil && !esc[a] && a.Parent() == fn {
+		eng.addrWrites(ms, ne, fn, x.Addr, x.Val.Type(), esc)
+	case *ssa.MapUpdate:
+		mt := x.Map.Type().Underlying().(*types.Map)
+		dn, vn, ln, ks, vs := ne.mapArrs(mt)
+		ms.heap[dn] = arrSort("Int", arrSort(ks, "Bool"))
+		ms.heap[vn] = arrSort("Int", arrSort(ks, vs))
+		ms.heap[ln] = arrSort("Int", "Int")
+	default:
+		eng.instrWrites2(ms, ne, fn, ins, esc, depth)
+	}
+}
+
+// addrWrites: a store of a value of type ty through address addr.
+func (eng *Engine) addrWrites(ms *modSet, ne *Exec, fn *ssa.Function, addr ssa.Value, ty types.Type, esc map[*ssa.Alloc]bool) {
+	{
+		if a := rootAlloc(addr); a != nil && !esc[a] && a.Parent() == fn {
 			ms.cells[a] = true
 			return
 		}
-		ty := x.Val.Type()
-		switch ad := x.Addr.(type) {
+		switch ad := addr.(type) {
 		case *ssa.FieldAddr:
 			st := deref(ad.X.Type())
 			ft := st.Underlying().(*types.Struct).Field(ad.Field).Type()
@@ -1266,12 +1306,11 @@ func (eng *Engine) instrWrites(ms *modSet, ne *Exec, fn *ssa.Function, ins ssa.I
 		default:
 			eng.addTypeWrites(ms, ne, ty)
 		}
-	case *ssa.MapUpdate:
-		mt := x.Map.Type().Underlying().(*types.Map)
-		dn, vn, ln, ks, vs := ne.mapArrs(mt)
-		ms.heap[dn] = arrSort("Int", arrSort(ks, "Bool"))
-		ms.heap[vn] = arrSort("Int", arrSort(ks, vs))
-		ms.heap[ln] = arrSort("Int", "Int")
+	}
+}
+
+func (eng *Engine) instrWrites2(ms *modSet, ne *Exec, fn *ssa.Function, ins ssa.Instruction, esc map[*ssa.Alloc]bool, depth int) {
+	switch x := ins.(type) {
 	case *ssa.Alloc:
 		if esc[x] {
 			ms.allocs = true
@@ -1305,14 +1344,14 @@ func (eng *Engine) instrWrites(ms *modSet, ne *Exec, fn *ssa.Function, ins ssa.I
 			ms.all = true
 		}
 	case *ssa.Call:
-		eng.callWrites(ms, ne, fn, &x.Call, depth)
+		eng.callWrites(ms, ne, fn, &x.Call, depth, esc)
 	case *ssa.Defer:
-		eng.callWrites(ms, ne, fn, &x.Call, depth)
+		eng.callWrites(ms, ne, fn, &x.Call, depth, esc)
 	case *ssa.Go:
 	}
 }
 
-func (eng *Engine) callWrites(ms *modSet, ne *Exec, fn *ssa.Function, cc *ssa.CallCommon, depth int) {
+func (eng *Engine) callWrites(ms *modSet, ne *Exec, fn *ssa.Function, cc *ssa.CallCommon, depth int, esc map[*ssa.Alloc]bool) {
 	if b, ok := cc.Value.(*ssa.Builtin); ok {
 		switch b.Name() {
 		case "append":
@@ -1365,7 +1404,21 @@ func (eng *Engine) callWrites(ms *modSet, ne *Exec, fn *ssa.Function, cc *ssa.Ca
 	if strings.HasPrefix(base, "__") {
 		return
 	}
+	if strings.HasPrefix(name, "sync/atomic.") {
+		op := strings.TrimPrefix(name, "sync/atomic.")
+		if !strings.HasPrefix(op, "Load") && len(cc.Args) > 0 {
+			if pt, ok := cc.Args[0].Type().Underlying().(*types.Pointer); ok {
+				eng.addrWrites(ms, ne, fn, cc.Args[0], pt.Elem(), esc)
+			}
+		}
+		return
+	}
 	if eng.isModelled(name) || eng.isPureExternal(name) || eng.isNoop(name) {
+		if strings.Contains(name, "littleEndian).PutUint") || strings.Contains(name, "littleEndian).AppendUint") {
+			n, srt := ne.memArr(types.Typ[types.Uint8])
+			ms.heap[n] = srt
+			ms.allocs = true
+		}
 		return
 	}
 	if sp := eng.specFor(callee); sp != nil {
